@@ -206,6 +206,7 @@ def check(a):
             excluded[res[1]] = excluded.get(res[1], 0) + g['count']
         else:
             violations.append(('%s|%s|%s' % (prop, key[0], key[1]), res))
+            log('violation group %s|%s: %d occurrences in this run' % (key[0], key[1], g['count']))
     # thorough C11: independent cross-check of the A/B oracle with valgrind memcheck on the un-instrumented build
     vg = None
     if prop == 'C11' and tier == 'thorough':
